@@ -75,6 +75,12 @@ fn owed_for(call: &[u8]) -> Option<Vec<u8>> {
     }
     let mut r = if name == "A:Q?" {
         args.trim_end_matches(')').as_bytes().to_vec()
+    } else if name == "A:R?" {
+        let n: usize = args.trim_end_matches(')').parse().ok()?;
+        let mut v = vec![b'"'];
+        v.extend(std::iter::repeat(b'r').take(n));
+        v.push(b'"');
+        v
     } else {
         main_response(name)?
     };
@@ -142,6 +148,8 @@ fn judge_trace(l: &Log, n: usize, lock: Option<&[(usize, usize)]>) -> Vec<(&'sta
     let mut written: Vec<u8> = vec![];
     let mut unflushed = false;
     let mut reported = false;
+    // bytes of the responses owed since the last write
+    let mut pending_bytes = 0usize;
     for (i, e) in ev.iter().enumerate() {
         match e.k {
             K::Enter => {
@@ -162,10 +170,13 @@ fn judge_trace(l: &Log, n: usize, lock: Option<&[(usize, usize)]>) -> Vec<(&'sta
                     // the error behind a query is its own only if it can fail at all: its handler
                     // returns an error, or its response does not fit the N-byte response buffer;
                     // otherwise the error belongs to the (parse-faulty) unit that follows
-                    let own = l.data(e).starts_with(b"A:F?") || r.len() > n;
+                    // (the responses of one message share the N-byte buffer until they are written)
+                    let too_big = pending_bytes + r.len() > n;
+                    let own = l.data(e).starts_with(b"A:F?") || too_big;
                     if !failed || !own {
+                        pending_bytes += r.len();
                         segs.push(Seg::Owed(r));
-                    } else if r.len() > n {
+                    } else if too_big {
                         segs.push(Seg::TooBig(r));
                     }
                 }
@@ -175,6 +186,7 @@ fn judge_trace(l: &Log, n: usize, lock: Option<&[(usize, usize)]>) -> Vec<(&'sta
                     v.push(("empty-write", String::new()));
                 }
                 written.extend_from_slice(l.data(e));
+                pending_bytes = 0;
                 unflushed = true;
             }
             K::TFlush => unflushed = false,
@@ -429,9 +441,35 @@ fn main() {
             check_case(st, n, s, &[0, s.len(), 0], false);
         }
     });
+    // responses of every length: one query answering n + 3 bytes for every n, and two / three of
+    // them in one message with totals around 64 and 128 bytes (chunk sizes a transport layer
+    // might use), for buffers the answers fit into and buffers they do not
+    let mut sized: Vec<Vec<u8>> = vec![];
+    for n in 0..=if thorough { 255 } else { 140 } {
+        sized.push(format!("A:R? {n}\n").into_bytes());
+    }
+    for total in (56..=72).chain(120..=136) {
+        for a in [0usize, 1, 17, total / 2 - 3, total - 6 - 1, total - 6] {
+            let b = total - 6 - a;
+            sized.push(format!("A:R? {a};R? {b}\n").into_bytes());
+            if b >= 5 {
+                sized.push(format!("A:R? {a};R? {};B?;R? 0\n", b - 5).into_bytes());
+            }
+        }
+    }
+    let sized = &sized;
+    let res2 = par::run_simple(sized.len(), args.threads, args.seed, St::default, |st, p| {
+        let s = &sized[p];
+        for n in [64usize, 128, 256] {
+            check_case(st, n, s, &[s.len()], true);
+            check_case(st, n, s, &env::regular(s.len(), 1), false);
+            check_case(st, n, s, &env::regular(s.len(), 5), false);
+        }
+    });
+    let sized_n = sized.len();
     let mut out = Outcome::new("C10");
     let mut t = St::default();
-    for s in res {
+    for s in res.into_iter().chain(res2) {
         out.groups.merge(s.groups);
         t.traces += s.traces;
         t.execs += s.execs;
@@ -460,6 +498,7 @@ fn main() {
         "bounds",
         json!({"pool": POOL.iter().map(|m| show(m)).collect::<Vec<_>>(), "max_messages": k, "streams": streams.len(), "N": ns,
                "chunkings": format!("all with <={cuts} cuts (<=2 beyond 16 bytes), regular 1/N/N+1, zero-length reads first and last"),
+               "responses_of_every_length": {"messages": sized_n, "what": "A:R? n for every n (a response of n + 3 bytes), two and three such queries per message with totals of 56..=72 and 120..=136 bytes", "N": [64, 128, 256], "chunkings": "one read (with Pending patterns), 1 and 5 bytes per read"},
                "fault_free_traces": t.traces, "fault_positions_executed": t.faults,
                "fault_positions_by_call_kind": {"read": t.fault_kinds[0], "write": t.fault_kinds[1], "flush": t.fault_kinds[2]},
                "pending_deviation_bound": if thorough { 2 } else { 1 }, "pending_runs": t.pending_runs}),
